@@ -44,3 +44,67 @@ impl Seqs {
         out.reverse();
     }
 }
+
+use crate::model::{
+    grammar::{Enumerator, Grammar, Tree},
+    tok::{K, Tok},
+};
+
+// All derivation trees of a grammar with token length in min..=max, shortest first.
+pub struct Sentences {
+    pub en: Enumerator,
+    pub start: usize,
+    pub blocks: Vec<(usize, u64, u64)>, // (len, count, offset)
+    pub total: u64,
+}
+
+impl Sentences {
+    pub fn new(g: Grammar, min: usize, max: usize) -> Sentences {
+        let start = g.start;
+        let mut en = Enumerator::new(g);
+        let mut blocks = vec![];
+        let mut total = 0;
+        for len in min..=max {
+            let c = en.count(start, len);
+            blocks.push((len, c, total));
+            total += c;
+        }
+        Sentences { en, start, blocks, total }
+    }
+    pub fn tree(&mut self, idx: u64) -> Tree {
+        for (len, c, off) in self.blocks.clone() {
+            if idx >= off && idx < off + c {
+                return self.en.unrank(self.start, len, idx - off);
+            }
+        }
+        panic!("sentence index out of range");
+    }
+}
+
+// Name the identifier leaves of a derivation tree: binders get fresh names b0, b1, ...; uses get the
+// name `u` (to be supplied to `parse` as a context variable), so the sentence is well scoped.
+pub fn name_simple(g: &Grammar, t: &Tree) -> Vec<Tok> {
+    fn go(g: &Grammar, t: &Tree, in_variable: bool, n: &mut usize, out: &mut Vec<Tok>) {
+        match t {
+            Tree::Leaf(K::Identifier) => {
+                if in_variable {
+                    out.push(Tok::ident("u"));
+                } else {
+                    out.push(Tok::ident(&format!("b{n}")));
+                    *n += 1;
+                }
+            }
+            Tree::Leaf(k) => out.push(Tok::new(*k)),
+            Tree::Node { nt, kids, .. } => {
+                let v = g.nts[*nt] == "variable";
+                for k in kids {
+                    go(g, k, v, n, out);
+                }
+            }
+        }
+    }
+    let mut out = vec![];
+    let mut n = 0;
+    go(g, t, false, &mut n, &mut out);
+    out
+}
